@@ -30,8 +30,10 @@ def cells_swv(tier):
     side = 4 if tier == "quick" else 5
     shapes = [(s,) for s in range(1, side + 1)] + [(a, b) for a in (1, 2, 3) for b in range(1, side + 1)] + [(2, a, b) for a in (2, 3) for b in (2, 3, side)]
     for shape in shapes:
-        for layout in ("C", "F", "strided"):
-            if layout != "C" and len(shape) == 1 and shape[0] < 2:
+        for layout in ("C", "F", "strided", "newaxis"):
+            if layout in ("F", "strided") and len(shape) == 1 and shape[0] < 2:
+                continue
+            if layout == "newaxis" and 1 not in shape:
                 continue
             for wr in range(1, len(shape) + 2):  # window rank, incl. one too many
                 tails = shape[-wr:] if wr <= len(shape) else (shape + (2,))[-wr:]
@@ -138,6 +140,11 @@ def make_arr(shape, layout):
     a = np.arange(int(np.prod(shape)), dtype=np.float64).reshape(shape) + 1.0
     if layout == "F":
         return np.asfortranarray(a)
+    if layout == "newaxis":
+        # size-1 axes made with None-indexing: C-contiguous by NumPy's flags, but with a zero stride on those axes
+        core = tuple(s for s in shape if s != 1)
+        b = np.arange(int(np.prod(core)), dtype=np.float64).reshape(core) + 1.0
+        return b[tuple(None if s == 1 else slice(None) for s in shape)]
     if layout == "strided":
         big = np.zeros(tuple(2 * s for s in shape))
         sl = tuple(slice(None, None, 2) for _ in shape)
